@@ -82,6 +82,8 @@ class HandlerModel:
         c.prove('%s:call-pre/handler-is-a-state' % where, is_state(s), tags=('wf',))
         if c.branch(s == TOP, 'handler-is-top'):
             return self.call_top(it, chart, e, sig)
+        # user code runs here: objects shared between charts (mutable class attributes, mutable defaults) may change
+        it.havoc_globals()
         S = self.sig
         st = self.st
         if z3.is_int_value(sig):
